@@ -16,6 +16,8 @@ pub mod c10;
 pub mod c11;
 pub mod c12;
 pub mod c13;
+pub mod c14;
+pub mod c15;
 pub mod c16;
 pub mod c17;
 
@@ -83,6 +85,8 @@ pub fn dispatch(
     route!("C11", c11);
     route!("C12", c12);
     route!("C13", c13);
+    route!("C14", c14);
+    route!("C15", c15);
     route!("C16", c16);
     route!("C17", c17);
 
